@@ -11,7 +11,9 @@ git apply "$P" || { echo "patch does not apply"; exit 2; }
 cleanup() {
   git -C /repo checkout -- .
   git -C /verif checkout -- evidence 2>/dev/null
-  echo "[reverted]"
+  # rebuild the harness against the reverted tree, so that a later direct use of the binary is not the patched build
+  (cd /verif/harness && CARGO_NET_OFFLINE=true cargo build >/dev/null 2>&1)
+  echo "[reverted, harness rebuilt]"
 }
 trap cleanup EXIT INT TERM
 cd /verif
